@@ -425,8 +425,8 @@ pub mod verif_hooks {
     pub use super::connections::reconnect_uplink;
     pub use super::housekeeping::handle_housekeeping;
     pub use super::packet_handler::{
-        InstantForwarder, flush_all_batches, handle_srt_packet, handle_uplink_packet,
-        process_connection_events,
+        InstantForwarder, drain_packet_queue, flush_all_batches, handle_srt_packet,
+        handle_uplink_packet, process_connection_events,
     };
     pub use super::reload::{IpReload, analyze_ip_reload, analyze_ip_reload_text};
     pub use super::uplink::{
